@@ -15,7 +15,7 @@ inline LPrt gen_lprt(Tape& t) {
 	unsigned np = unsigned(t.below(4));
 	for (unsigned i = 0; i < np; ++i) { std::array<std::array<uint8_t, 4>, 256> pal; uint64_t s = t.u64() | 1; for (auto& c : pal) { s ^= s << 13; s ^= s >> 7; s ^= s << 17; c = {uint8_t(s >> 8), uint8_t(s >> 16), uint8_t(s >> 24), uint8_t(s >> 32)}; } p.palettes.push_back(pal);
 		refgfx::LPalHeader h; if (t.below(5) == 0) { uint32_t hl = uint32_t(t.below(64)), dl = uint32_t(t.below(4096)); h.headLen = hl; h.dataLen = dl; h.overallLen = 8 + (hl + 4) + 4 + (dl + 4); h.tagCount = t.u32(); } p.palHeaders.push_back(h); }
-	unsigned ni = np ? unsigned(t.below(13)) : 0;
+	unsigned ni = np ? unsigned(t.below(13)) : 0; if (np && t.below(24) == 0) ni = t.pick<unsigned>({1000, 4097, 5000});   // image tables past any chunked-read threshold
 	for (unsigned i = 0; i < ni; ++i) { refgfx::LImage im; im.width = t.pick<uint32_t>({0, 1, 3, 4, 5, 31, 32, 33, 640, 0xFFFFFFFCu, 0xFFFFFFF9u}); if (t.flag()) im.width = uint32_t(t.below(2000)); im.scanLine = (im.width + 3) & ~3u; im.height = t.below(4) == 0 ? t.u32() : uint32_t(t.below(500)); im.pixelOffset = t.u32(); im.type = t.u16(); im.paletteIndex = uint16_t(t.below(np)); p.images.push_back(im); }
 	unsigned na = unsigned(t.below(6));
 	for (unsigned i = 0; i < na; ++i) {
@@ -29,7 +29,7 @@ inline LPrt gen_lprt(Tape& t) {
 			for (unsigned l = 0; l < nl; ++l) fr.layers.push_back({t.u16(), t.u8(), t.u8(), int16_t(t.u16()), int16_t(l)});
 			a.frames.push_back(fr);
 		}
-		unsigned nu = unsigned(t.below(6)); for (unsigned u = 0; u < nu; ++u) a.unknownContainer.push_back({t.u32(), uint32_t(u), 7u, t.u32()});
+		unsigned nu = unsigned(t.below(6)); if (t.below(24) == 0) nu = t.pick<unsigned>({300, 4097}); for (unsigned u = 0; u < nu; ++u) a.unknownContainer.push_back({t.u32(), uint32_t(u), 7u, t.u32()});
 		p.anims.push_back(a);
 	}
 	p.unknownAnimationCount = t.below(3) == 0 ? t.u32() : uint32_t(t.below(10));
